@@ -63,6 +63,10 @@ def searchItem (z : ZTable) (cm : SearchCfgM) (cs : Spec.SearchCfg) (noSpec : Bo
         match (Spec.legalMoves r.g.current).find? (fun sm => Spec.moveName sm == uci) with
         | none => ({ r with w := w' }, "ok", "spec-illegal")
         | some sm => ({ r with w := w', g := { r.g with moves := r.g.moves ++ [sm] } }, "ok", "ok")
+  else if item == "pop" then
+    match r.w.popMove 0 with
+    | none => (r, "none", "none")
+    | some (w', m) => ({ r with w := w', g := { r.g with moves := r.g.moves.dropLast } }, moveUci m, moveUci m)
   else if item.startsWith "s:" then
     match (item.drop 2).toString.splitOn ":" with
     | [ds, at_, am, ak, bt, bm, bk, cs_] =>
